@@ -235,7 +235,33 @@ func (c *Ctx) runOnce(sc Scenario, base int, prefix []int, log func(string)) (vs
 	return res, check(&res)
 }
 
+// raceRuns is the number of free-running repetitions per scenario in the race pass (0 = normal mode).
+func raceRuns() int {
+	n, _ := strconv.Atoi(os.Getenv("VERIF_RACE"))
+	return n
+}
+
+// freeRun runs the scenario body without the scheduler (real goroutines, real locks) so that a
+// race detector built into the binary can observe unsynchronised accesses, which the cooperative
+// scheduler's hand-offs would hide. Oracle failures seen here are reported as notes.
+func (c *Ctx) freeRun(sc Scenario, n int) {
+	for i := 0; i < n; i++ {
+		body, check := sc.Make()
+		res := vs.Run(c.T, vs.Config{Sequential: true, SeqTimeout: 120 * time.Second}, body)
+		c.Evals++
+		if f := check(&res); f != nil && len(c.Notes) < 5 {
+			c.Notes = append(c.Notes, fmt.Sprintf("free-running execution of %s failed its oracle: %s", sc.Name, f.Sig))
+		}
+	}
+}
+
 func (c *Ctx) exploreBase(sc Scenario, base int) {
+	if n := raceRuns(); n > 0 {
+		if !sc.Sequential && base == 0 && sc.Shard == 0 {
+			c.freeRun(sc, n)
+		}
+		return
+	}
 	e := &explore.Explorer{Bounds: sc.Bounds, MaxExec: sc.MaxExec, Deadline: c.Expired, Shard: sc.Shard, NShard: sc.NShard}
 	first := true
 	e.Run = func(prefix []int) (vs.Result, bool) {
